@@ -63,6 +63,7 @@ var sdScenarios = []sdScenario{
 	{Name: "group-idle-member", Component: "group", Variant: "idle-member", KMax: 120},
 	{Name: "group-offset-fetch-fails", Component: "group", Variant: "offset-fetch-fails", KMax: 80},
 	{Name: "group-coordinator-lost", Component: "group", Variant: "coordinator-lost", KMax: 60},
+	{Name: "producer-close-takes-over", Component: "producer", Variant: "takes-over", KMax: 80},
 	{Name: "group-heartbeats-die", Component: "group", Variant: "heartbeats-die", KMax: 200},
 	{Name: "group-leave-fails", Component: "group", Variant: "leave-fails", KMax: 60},
 	{Name: "om-mid-commit", Component: "om", Variant: "slow-commit", KMax: 80},
@@ -471,11 +472,14 @@ func sdProducer(r *sdRun, rng *rand.Rand) {
 	drained := make(chan struct{})
 	var afterClose int64
 	var closedFlag int32
+	quitReading := make(chan struct{})
 	go func() {
 		defer close(drained)
 		s, e := ap.Successes(), ap.Errors()
 		for s != nil || e != nil {
 			select {
+			case <-quitReading:
+				return // variant takes-over: from its call on, Close() itself reads what is still to come
 			case _, ok := <-s:
 				if !ok {
 					s = nil
@@ -502,6 +506,13 @@ func sdProducer(r *sdRun, rng *rand.Rand) {
 		// the API forbids writing to Input() after AsyncClose: stop the submitter first
 		close(stopInput)
 		<-inputDone
+		if r.sc.Variant == "takes-over" {
+			close(quitReading)
+			<-drained
+			ap.Close()
+			atomic.StoreInt32(&closedFlag, 1)
+			return
+		}
 		if useClose {
 			ap.Close()
 		} else {
